@@ -39,6 +39,7 @@ type respObs struct {
 	Panic   string
 	Origin  string // where a panic was raised: goa | stdlib-codec | caller
 	NilEnc  bool
+	ErrPath bool // the value went through goahttp.ErrorEncoder
 	EncErr  error
 	Header  string
 	Body    []byte
@@ -72,10 +73,23 @@ func execResponse(rc respCase, v *valueSpec) (obs respObs) {
 	if rc.DesignedKey {
 		ctx = context.WithValue(ctx, goahttp.ContentTypeKey, rc.Designed)
 	}
-	var encoder func(context.Context, http.ResponseWriter) goahttp.Encoder = goahttp.ResponseEncoder
+	// the encoder function handed to generated code is the library's; the wrapper only observes
+	// what it returns
+	var encoder func(context.Context, http.ResponseWriter) goahttp.Encoder = func(ctx context.Context, w http.ResponseWriter) goahttp.Encoder {
+		enc := goahttp.ResponseEncoder(ctx, w)
+		obs.NilEnc = enc == nil
+		obs.EncType = fmt.Sprintf("%T", enc)
+		return enc
+	}
+	if v.Err != nil {
+		// default error path (server_handler_init.go.tpl / error_encoder.go.tpl): the formatter is
+		// nil, i.e. goahttp.NewErrorResponse; the status is written by the error encoder
+		obs.ErrPath = true
+		encodeError := goahttp.ErrorEncoder(encoder, nil)
+		obs.EncErr = encodeError(ctx, w, v.Err())
+		return obs
+	}
 	enc := encoder(ctx, w)
-	obs.NilEnc = enc == nil
-	obs.EncType = fmt.Sprintf("%T", enc)
 	body := v.Make()
 	w.WriteHeader(http.StatusOK)
 	obs.EncErr = enc.Encode(body)
@@ -119,15 +133,41 @@ func goaDecodeResponse(resp *http.Response, target any) (err error, panicked str
 	return goahttp.ResponseDecoder(resp).Decode(target), ""
 }
 
-// sniff returns the format in which body is an encoding of want (by the reference codecs), or "?".
-func sniff(body []byte, v *valueSpec, want string) string {
-	for _, f := range allFormats {
-		t := v.Target()
-		if err := refDecode(f, body, t); err == nil && canon(t) == want {
+// sniff returns the format in which body is an encoding of the original (by the reference
+// codecs), or "?".
+func sniff(body []byte, v *valueSpec) string { return sniffFirst(body, v, "") }
+
+// sniffFirst tries the format `first` before the others. The answer does not depend on the order:
+// the menu values are checked at start-up to be readable as the original in one format only.
+func sniffFirst(body []byte, v *valueSpec, first string) string {
+	for i := -1; i < len(allFormats); i++ {
+		f := first
+		if i >= 0 {
+			f = allFormats[i]
+			if f == first {
+				continue
+			}
+		} else if exactFormatName[first] == false {
+			continue
+		}
+		t := v.refTarget()
+		if err := refDecode(f, body, t); err == nil && v.matches(t) {
 			return f
 		}
 	}
 	return "?"
+}
+
+// readable returns the first format whose reference codec reads body into the value's type at
+// all (whatever the value), and the value read.
+func readable(body []byte, v *valueSpec, first string) (string, any) {
+	for _, f := range append([]string{first}, allFormats...) {
+		t := v.refTarget()
+		if err := refDecode(f, body, t); err == nil {
+			return f, v.norm(t)
+		}
+	}
+	return "", nil
 }
 
 type failure struct{ sig, what string }
@@ -165,6 +205,18 @@ func judgeResponse(rc respCase, v *valueSpec, obs respObs) (outcome string, fail
 		expect = fJSON
 	}
 
+	// 1b. default error path: the status written by the error encoder agrees with the
+	// characteristics of the error (documented mapping, refStatus)
+	statusNote := ""
+	if orig, ok := v.origs()[0].(*errMirror); ok && obs.ErrPath {
+		statusNote = fmt.Sprintf(" status=%d", obs.Code)
+		if ws := refStatus(orig); obs.Code != ws {
+			add(fmt.Sprintf("response error-path status-written=%d error-flags-say=%d", obs.Code, ws),
+				fmt.Sprintf("the error encoder answered %d; the error (timeout=%v temporary=%v fault=%v name=%q) maps to %d", obs.Code, orig.Timeout, orig.Temporary, orig.Fault, orig.Name, ws))
+			outcome = "VIOLATION status"
+		}
+	}
+
 	if v.NoValue {
 		// nil *string: nothing to recover; only the absence of a panic is required
 		if obs.EncErr != nil {
@@ -181,30 +233,35 @@ func judgeResponse(rc respCase, v *valueSpec, obs respObs) (outcome string, fail
 				"JSON fallback expected but the chosen encoder failed: "+obs.EncErr.Error())
 			return "VIOLATION fallback", fails
 		}
-		return fmt.Sprintf("encode-error value=%s announced=%s", v.Kind, announced), fails
+		if outcome != "" {
+			return outcome, fails
+		}
+		return fmt.Sprintf("encode-error value=%s announced=%s%s", v.Kind, announced, statusNote), fails
 	}
 
-	want := canon(v.Make())
-	bodyFmt := sniff(obs.Body, v, want)
+	want := canon(v.origs()[0])
+	bodyFmt := sniffFirst(obs.Body, v, announced)
 
 	// 3. round trip through the library's response decoder reading the header that was set
 	target := v.Target()
 	derr, dpanic := goaDecodeResponse(obs.resp, target)
 	roundtrip := "ok"
+	anotherValue := false // reported: the body is a well-formed document carrying another value
 	switch {
 	case dpanic != "":
 		roundtrip = "decoder-panic"
 	case derr != nil:
 		roundtrip = "decode-error"
-	case canon(target) != want:
+	case !v.matches(target):
 		roundtrip = "different-value"
 	}
 	// 3b. independent reading of the header: a header announcing json/xml/gob/text must sit on
 	// a body in that format.
 	reference := "n/a"
-	if _, known := map[string]bool{fJSON: true, fXML: true, fGob: true, fText: true}[announced]; known {
-		t := v.Target()
-		if err := refDecode(announced, obs.Body, t); err == nil && canon(t) == want {
+	if exactFormatName[announced] {
+		// (the body is the original in at most one format, checked at start-up: the reference codec
+		// of the announced format recovers the original iff that format is the one sniffed)
+		if bodyFmt == announced {
 			reference = "ok"
 		} else {
 			reference = "mismatch"
@@ -222,14 +279,46 @@ func judgeResponse(rc respCase, v *valueSpec, obs respObs) (outcome string, fail
 		if derr != nil {
 			detail += " (" + derr.Error() + ")"
 		} else if roundtrip == "different-value" {
-			detail += fmt.Sprintf(" (decoded %s, original %s)", short(canon(target)), short(want))
+			detail += fmt.Sprintf(" (decoded %s, original %s)", canon(v.norm(target)), want)
 		}
-		add(fmt.Sprintf("response header=%s announced=%s body=%s %s", headerRelation(rc.Preset, obs.Header), announced, bodyFmt, dev), detail)
+		sig := fmt.Sprintf("response header=%s announced=%s body=%s %s", headerRelation(rc.Preset, obs.Header), announced, bodyFmt, dev)
+		if bodyFmt == "?" {
+			// the body is the original in NO format: say what it is instead, field by field
+			// (the header plays no part in that: one signature whatever was announced)
+			if f, got := readable(obs.Body, v, announced); f != "" {
+				anotherValue = true
+				sig = fmt.Sprintf("response body-carries-another-value written-as=%s value=%s differs=%s", f, strings.SplitN(v.Kind, "-", 2)[0], v.diffFields(got))
+				detail += fmt.Sprintf("; the reference %s codec reads the body as %s", f, canon(got))
+			}
+		}
+		add(sig, detail)
 		outcome = "VIOLATION mismatch"
 	}
 
+	// 3c. default error path: the status written agrees with the flags the body carries
+	// (a body that IS the original in some format carries the original's flags: covered by 1b)
+	if obs.ErrPath && bodyFmt == "?" {
+		if f, got := readable(obs.Body, v, announced); f != "" {
+			if m, ok := got.(*errMirror); ok && m != nil {
+				// (for errors that are no ServiceError norm blanked the name: flags only)
+				if bs := refStatus(m); bs != obs.Code {
+					add(fmt.Sprintf("response error-path status-written=%d body(%s)-says=%d", obs.Code, f, bs),
+						fmt.Sprintf("the answer has status %d but its %s body (timeout=%v temporary=%v fault=%v name=%q) describes a %d error", obs.Code, f, m.Timeout, m.Temporary, m.Fault, m.Name, bs))
+					outcome = "VIOLATION status"
+				}
+			}
+		}
+	}
+
 	// 4. fallback to JSON / exact Accept honoured
-	if expect != "" && bodyFmt != expect {
+	// (a body that the reference codec of the expected format reads into the value's type IS in the
+	// expected format; that it carries another value is reported above, once, not per Accept class)
+	if expect != "" && bodyFmt == "?" && anotherValue {
+		if f, _ := readable(obs.Body, v, expect); f == expect {
+			bodyFmt = expect + "(another value)"
+		}
+	}
+	if expect != "" && bodyFmt != expect && bodyFmt != expect+"(another value)" {
 		add(fmt.Sprintf("response accept=%s designed=%s expected-body=%s body=%s", acceptClass, rc.DesignedKind, expect, bodyFmt),
 			fmt.Sprintf("the statement requires a %s body here, the body is %s", expect, bodyFmt))
 		outcome = "VIOLATION expectation"
@@ -240,7 +329,7 @@ func judgeResponse(rc respCase, v *valueSpec, obs respObs) (outcome string, fail
 		outcome = "VIOLATION expectation"
 	}
 	if outcome == "" {
-		outcome = fmt.Sprintf("ok body=%s announced=%s header=%s", bodyFmt, announced, headerRelation(rc.Preset, obs.Header))
+		outcome = fmt.Sprintf("ok body=%s announced=%s header=%s%s", bodyFmt, announced, headerRelation(rc.Preset, obs.Header), statusNote)
 	}
 	return outcome, fails
 }
